@@ -145,17 +145,27 @@ class JsonCodeGen(IntermediateCodeGen):
 
                 modData[object_oid].append(module)
 
-            if modData:
-                unique_prefixes = {}
-                for oid in sorted(modData, key=lambda x: x.count('.')):
-                    for oid_prefix, modules in unique_prefixes.items():
-                        if ((oid == oid_prefix or oid.startswith(oid_prefix + '.')) and
-                                set(modules).issuperset(modData[oid])):
-                            break
-                    else:
-                        unique_prefixes[oid] = modData[oid]
+        # keep a module under an OID only if no shorter OID prefix already
+        # lists it; done once over the merged data and per module, so that
+        # the outcome depends neither on the order of modules nor on how
+        # many times the same results are indexed
+        modData = outDict['oids']
+        unique_prefixes = {}
+        for oid in sorted(modData, key=lambda x: x.count('.')):
+            modules = []
+            for module in modData[oid]:
+                for oid_prefix, prefix_modules in unique_prefixes.items():
+                    if (oid.startswith(oid_prefix + '.') and
+                            module in prefix_modules):
+                        break
+                else:
+                    if module not in modules:
+                        modules.append(module)
 
-                outDict['oids'] = unique_prefixes
+            if modules:
+                unique_prefixes[oid] = modules
+
+        outDict['oids'] = unique_prefixes
 
         if 'comments' in kwargs:
             outDict['meta']['comments'] = kwargs['comments']
